@@ -194,7 +194,7 @@ def stage_signals(report, tier, rng, dist):
         try:
             cfg = dict(cfg, gatedir=os.path.join(d, 'gates'), storage=os.path.join(d, 'store'), result_file=os.path.join(d, 'result.json'))
             os.makedirs(cfg['gatedir'])
-            env = dict(os.environ, PYTHONPATH='/repo:' + here)
+            env = dict(os.environ, PYTHONPATH=os.environ.get('LV_REPO', '/repo') + ':' + here)
             with open(os.path.join(d, 'out.txt'), 'w') as fo:
                 p = subprocess.Popen([PY, os.path.join(here, 'l3_sigint.py'), json.dumps(cfg)], env=env, stdout=fo, stderr=fo,
                                      stdin=subprocess.DEVNULL, start_new_session=True)
